@@ -56,6 +56,10 @@ class Result:
         clause = which clause of the oracle failed
         cls    = input class (a small named predicate evaluated on the reference side)
         """
+        # an exception text that can only come from a slip in the harness itself must never be reported as a violation of the library
+        err = str(detail.get("error", "") or detail.get("msg", "")) if isinstance(detail, dict) else ""
+        if err.startswith(("NameError", "UnboundLocalError")) or ("NameError: name" in err and "is not defined" in err):
+            raise HarnessError("harness slip reported as a failure of %s: %s" % (site, err))
         self.fails.append(
             dict(site=site, clause=clause, cls=cls, detail=detail, sub=sub, case=case)
         )
